@@ -222,6 +222,7 @@ def run_cases(pid, tier, seed, scratch, log, replay_lines=None):
         cmd = [h, "replay", pid, scratch, rf]
     e = env_go()
     e.setdefault("GOMEMLIMIT", "24GiB")
+    e["ZV_CORPUS"] = os.path.join(VERIF, "corpus")
     rc, out = run(cmd, env=e, timeout=PROPS[pid].get("timeout_s", 3000) * (1 if tier == "quick" else 4))
     log.append("harness rc=%d %s" % (rc, out[-3000:]))
     if rc != 0:
